@@ -118,6 +118,44 @@ Proof.
   rewrite !(comp_zipz Z.add eq_refl). reflexivity.
 Qed.
 
+(* the mask for vector-valued labels is the CONJUNCTION of the component masks (get_qn_mask: np.all(..., axis=-1)) *)
+Lemma veqb_of_comp : forall a b, (forall k, comp k a = comp k b) -> veqb a b = true.
+Proof.
+  induction a as [|x a IH]; intros b H.
+  - cbn [veqb]. induction b as [|y b IHb]; [reflexivity|]. cbn [forallb].
+    pose proof (H O) as H0. unfold comp in H0. cbn in H0. rewrite <- H0. cbn [Z.eqb andb]. apply IHb.
+    intros k. pose proof (H (S k)) as Hk. rewrite comp_nil in *. unfold comp in *. cbn [nth] in Hk. exact Hk.
+  - destruct b as [|y b]; cbn [veqb].
+    + pose proof (H O) as H0. unfold comp in H0. cbn in H0. subst x. cbn [Z.eqb andb]. apply IH.
+      intros k. pose proof (H (S k)) as Hk. rewrite comp_nil in *. unfold comp in *. cbn [nth] in Hk. exact Hk.
+    + pose proof (H O) as H0. unfold comp in H0. cbn in H0. subst y. rewrite Z.eqb_refl. cbn [andb]. apply IH.
+      intros k. pose proof (H (S k)) as Hk. unfold comp in *. cbn [nth] in Hk. exact Hk.
+Qed.
+
+Lemma veqb_iff_comp a b : veqb a b = true <-> forall k, comp k a = comp k b.
+Proof. split; [apply veqb_comp|apply veqb_of_comp]. Qed.
+
+Theorem mask1_vector_conjunction (sg : list (list Z)) (m : meta VLab) i l p r :
+  @mask1 VLab sg m i l p r = true <-> forall k, @mask1 ZLab (map (comp k) sg) (proj_meta k m) i l p r = true.
+Proof.
+  split; [intros H k; apply mask1_comp; exact H|].
+  intros H. unfold mask1, sig_at, qn_at in *. cbn [proj_meta qn qnidx qntot to_right lab VLab ZLab ladd leqb lzero_like] in *.
+  apply veqb_of_comp. intros k. specialize (H k). apply Z.eqb_eq in H. rewrite <- H.
+  rewrite <- !(nth_proj k (qn m) _ _ (qntot m)), <- (nth_proj_sig k sg p (qntot m)).
+  destruct (to_right m); rewrite !(comp_zipz Z.add eq_refl); reflexivity.
+Qed.
+
+Theorem mask2_vector_conjunction (sg1 sg2 : list (list Z)) (m : meta VLab) i l p1 p2 r :
+  @mask2 VLab sg1 sg2 m i l p1 p2 r = true <->
+  forall k, @mask2 ZLab (map (comp k) sg1) (map (comp k) sg2) (proj_meta k m) i l p1 p2 r = true.
+Proof.
+  split; [intros H k; apply mask2_comp; exact H|].
+  intros H. unfold mask2, sig_at, qn_at in *. cbn [proj_meta qn qnidx qntot to_right lab VLab ZLab ladd leqb lzero_like] in *.
+  apply veqb_of_comp. intros k. specialize (H k). apply Z.eqb_eq in H. rewrite <- H.
+  rewrite <- !(nth_proj k (qn m) _ _ (qntot m)), <- (nth_proj_sig k sg1 p1 (qntot m)), <- (nth_proj_sig k sg2 p2 (qntot m)).
+  rewrite !(comp_zipz Z.add eq_refl). reflexivity.
+Qed.
+
 (* ------------------------------------------------------------------ replacing sites *)
 Section Replace.
 Variable R : CRing.
